@@ -41,8 +41,8 @@ type c12case struct {
 
 func (k c12case) key() string { b, _ := json.Marshal(k); return string(b) }
 
-var c12FilePool = []string{"a.txt", "gen.txt", "x.o", "y.o", "lib/z.o", "build/out.bin", "build/sub/deep.bin", "dist/", "keep/me.txt", "src/main.c", "src/gen/auto.c", ".hidden.o", "out/f", "nested/dir/", "notes.md", "bin/tool", "report[1].txt", "report1.txt", "out-v?.dat", "out-v1.dat", "gen\\report.txt", "gen/report.txt", "zzabs_7f3a.out", "v1.0..v1.1.tar", "spok", "spokfil", "spokfile.bak", "s/"}
-var c12Literals = []string{"gen.txt", "build", "build/sub", "missing.out", "dist", "x.o", "bin/tool", "out", "src/gen", "report[1].txt", "out-v?.dat", "latest", "assets", "cur", "gen\\report.txt", "/zzabs_7f3a.out", "@HOME@/above.txt", "v1.0..v1.1.tar", "spok", "spokfil", "spokfile.bak", "s"}
+var c12FilePool = []string{"a.txt", "gen.txt", "x.o", "y.o", "lib/z.o", "build/out.bin", "build/sub/deep.bin", "dist/", "keep/me.txt", "src/main.c", "src/gen/auto.c", ".hidden.o", "out/f", "nested/dir/", "notes.md", "bin/tool", "report[1].txt", "report1.txt", "out-v?.dat", "out-v1.dat", "gen\\report.txt", "gen/report.txt", "zzabs_7f3a.out", "v1.0..v1.1.tar", "spok", "spokfil", "spokfile.bak", "s/", "vendor/Outer$Inner.class", "vendor/Outer.class", "$HOME.txt", "~/x.o", "a b.txt", "%s.o"}
+var c12Literals = []string{"gen.txt", "build", "build/sub", "missing.out", "dist", "x.o", "bin/tool", "out", "src/gen", "report[1].txt", "out-v?.dat", "latest", "assets", "cur", "gen\\report.txt", "/zzabs_7f3a.out", "@HOME@/above.txt", "v1.0..v1.1.tar", "spok", "spokfil", "spokfile.bak", "s", "vendor/Outer$Inner.class", "$HOME.txt", "~", "a b.txt", "%s.o", "${OUT}"}
 var c12LinkPool = [][2]string{{"latest", "keep/me.txt"}, {"assets", "../sibling"}, {"cur", "build"}, {"lib/link.o", "../x.o"}}
 var c12Globs = []string{"*.o", "**/*.o", "build/*", "nomatch/*.zzz", "*", "src/**/*.c", "*.{o,bin}", "**/*.bin", "lib/*", "*.tar"}
 var c12Dangerous = []string{"", ".", "..", "./", "build/..", "spokfile", "../proj", "./spokfile", "build/../..", "build/../", "./.", "src/./..", "@PROJ@", "@PROJ@/", "@PROJ@/spokfile", "@PROJ@/.."}
